@@ -113,8 +113,8 @@ fn shape<const D: usize>(dv: &[u8]) -> CaseResult {
             let mut extras = vec![dims[dim], dims[dim] + 1];
             // huge values whose product with the stride wraps around in builds without overflow checks
             let stride0: usize = dims[dim + 1..].iter().product();
-            extras.extend_from_slice(&[1usize << 62, 1usize << 63, usize::MAX, usize::MAX / 2 + 1, 1usize << 32, (usize::MAX / stride0.max(1)).wrapping_add(1), (1usize << 63) / stride0.max(1) * 2]);
-            for e in [usize::MAX / stride0.max(1) + 1 + idx[D - 1], (usize::MAX - len) / stride0.max(1) + 2] {
+            extras.extend_from_slice(&[1usize << 62, 1usize << 63, usize::MAX, usize::MAX / 2 + 1, 1usize << 32, (usize::MAX / stride0.max(1)).wrapping_add(1), ((1usize << 63) / stride0.max(1)).wrapping_mul(2)]);
+            for e in [(usize::MAX / stride0.max(1)).wrapping_add(1 + idx[D - 1]), ((usize::MAX - len) / stride0.max(1)).wrapping_add(2)] {
                 extras.push(e);
             }
             extras.retain(|&e| e >= dims[dim]);
@@ -236,7 +236,7 @@ fn big<const D: usize>(dv: &[u32], seed: u32) -> CaseResult {
             for dim in 0..D {
                 let mut extras = vec![dims[dim], dims[dim] + 1, dims[dim] + 255, dims[dim] + 256, dims[dim] + 65536];
                 let stride: usize = dims[dim + 1..].iter().product();
-                extras.extend_from_slice(&[1usize << 62, 1usize << 63, usize::MAX, 1usize << 32, (usize::MAX / stride.max(1)).wrapping_add(1), (usize::MAX - len) / stride.max(1) + 2]);
+                extras.extend_from_slice(&[1usize << 62, 1usize << 63, usize::MAX, 1usize << 32, (usize::MAX / stride.max(1)).wrapping_add(1), ((usize::MAX - len) / stride.max(1)).wrapping_add(2)]);
                 extras.retain(|&e| e >= dims[dim]); // (a wrapped candidate may have become a valid index)
                 let mut z = a;
                 z[dim] = 0;
